@@ -1,5 +1,7 @@
 package main
 
+import "fmt"
+
 // controls.go — positive controls: engine rules must fire on seeded violations.
 
 type controlFn func(c *Ctx) (fired bool, detail string)
@@ -77,5 +79,39 @@ func init() {
 		_, okBad := c.NeverTwice(bad, sinkP(c), false, nil)
 		_, okGood := c.NeverTwice(good, sinkP(c), false, nil)
 		return !okBad && okGood, "NT engine verdicts wrong on controls"
+	}
+}
+
+func init() {
+	controlTable["path-cd"] = func(c *Ctx) (bool, string) {
+		fn := c.Fn("CdExtraGuard")
+		if fn == nil {
+			return false, "control function missing"
+		}
+		sinks := c.instrs(fn, c.isCallTo("sink"))
+		if len(sinks) != 1 {
+			return false, "sink not found"
+		}
+		deps := c.controlDeps(fn, sinks[0].Block())
+		var terms []string
+		for _, d := range deps {
+			if l, ok := c.edgeLit(d.B, d.Succ); ok {
+				terms = append(terms, l.String())
+			}
+		}
+		hasErr, hasX, hasLoop := false, false, false
+		for _, t := range terms {
+			if t == "¬nonnil(ctlState.err(P0))" {
+				hasErr = true
+			}
+			if len(t) > 3 && t[:3] == "lt(" {
+				hasLoop = true
+				if len(t) > 5 && t[:5] == "lt(0," {
+					hasX = true
+				}
+			}
+		}
+		_ = hasLoop
+		return hasErr && hasX, "control dependence closure misses a guard: " + fmt.Sprint(terms)
 	}
 }
